@@ -630,6 +630,7 @@ PROPS["C07"] = {
 def _c14():
     L = [leg("vtbb-graphs", "c14_flow", (4, 6), {}, flags=(), what="672 graphs: chains with 4 buffer policies x concurrency limits, buffering senders -> rejecting nodes, fan-out/fan-in, limiter feedback cycle, "
              "continue_node, multifunction_node, input_node, async_node with a foreign completion, exception / cancel at every body invocation", weight=3.0)]
+    L.append(leg("vtbb-graphs-nested", "c14_flow", (3, 5), {"nested": 1}, flags=(), what="the same 672 graphs; in addition every task-based body may re-enter the dispatcher on its own worker (a nested wait inside the body runs another graph task)", weight=2.0))
     for k, b, what in [("ext2", (1, 2), "two external threads + main try_put into one serial queueing function_node"), ("ext2rej", (1, 2), "same, rejecting node: a rejected put is reported, an accepted one processed once"),
                        ("pull", (1, 2), "queue_node -> rejecting serial node, puts from two threads: push/pull edge switching"), ("pull2", (1, 2), "queue_node -> two rejecting serial nodes"),
                        ("bufsplit", (1, 2), "buffer_node -> two rejecting nodes: each message to exactly one"), ("async", (2, 3), "async_node completed by a foreign thread: wait_for_all waits for release_wait")]:
